@@ -2,11 +2,13 @@ package core
 
 import (
 	"bytes"
+	"context"
 	"fmt"
 	"os"
 	"os/exec"
 	"regexp"
 	"strings"
+	"time"
 )
 
 // RacePass runs the free-running -race build of the same checker (path in VERIF_RACE_BIN, built by /verif/check
@@ -23,12 +25,19 @@ func (r *Run) RacePass(args ...string) {
 		r.Assume("race pass skipped: the exhaustive part already found a violation")
 		return
 	}
-	cmd := exec.Command(bin, args...)
+	ctx, cancelCmd := context.WithTimeout(context.Background(), 20*time.Minute)
+	defer cancelCmd()
+	cmd := exec.CommandContext(ctx, bin, args...)
 	cmd.Env = append(os.Environ(), "GORACE=halt_on_error=0 exitcode=0", "VERIF_RACE_CHILD=1")
 	var stderr, stdout bytes.Buffer
 	cmd.Stderr = &stderr
 	cmd.Stdout = &stdout
 	if err := cmd.Run(); err != nil {
+		if ctx.Err() != nil {
+			// no wall-clock oracle: a free-running pass that does not finish is a cap, not a verdict
+			r.Capped("race pass did not finish within 20 minutes")
+			return
+		}
 		if strings.Contains(stderr.String(), "panic:") && strings.Contains(stderr.String(), "github.com/specterops/dawgs/") {
 			r.Report(Violation{Class: "panic", Summary: "panic in DAWGS code during the free-running pass", Artefact: map[string]any{"stderr_tail": strings.Split(tail(stderr.String(), 40), "\n"), "args": args}})
 			return
